@@ -8,6 +8,7 @@ output cell equals the documented formula applied to the right input cells, for 
 """
 from __future__ import annotations
 
+import datetime as _dt
 import itertools
 import math
 from fractions import Fraction
@@ -39,7 +40,9 @@ _ACHANGE = {
 # documented: in start-of-year periods a "tty" change leaves the value unchanged
 _TTY_UNCHANGED = {"diff", "roc"}
 _CUM_OF = {"cum_diff": "diff", "cum_diff_log": "diff_log", "cum_pct": "pct", "cum_roc": "roc"}
-_FREQS = {"Y": ("yy", 1), "H": ("hh", 2), "Q": ("qq", 4), "M": ("mm", 12), "I": ("ii", 0)}
+_FREQS = {"Y": ("yy", 1), "H": ("hh", 2), "Q": ("qq", 4), "M": ("mm", 12), "I": ("ii", 0), "D": ("dd", 365)}
+# daily structures: the offset counts days from this date (28 Dec 2023: the window crosses into the leap year 2024)
+_DAILY_BASE = (2023, 12, 28)
 
 
 def _start(ir, fr, offset):
@@ -48,6 +51,9 @@ def _start(ir, fr, offset):
         return ir.ii(10 + offset)
     if fr == "Y":
         return ir.yy(2020 + offset)
+    if fr == "D":
+        d = _dt.date(*_DAILY_BASE) + _dt.timedelta(days=offset)
+        return ir.dd(d.year, d.month, d.day)
     return getattr(ir, ctor)(2020 + offset // f, 1 + offset % f)
 
 
@@ -55,6 +61,16 @@ def _ref(serial, shift, f):
     """reference period serial of the documented formula; None = start-of-year neutral ("tty")"""
     if isinstance(shift, int):
         return serial + shift
+    if f == 365:
+        # daily: the serial is the proleptic Gregorian ordinal; the calendar oracle is python's datetime
+        d = _dt.date.fromordinal(serial)
+        if shift == "soy":
+            return _dt.date(d.year, 1, 1).toordinal()
+        if shift == "eopy":
+            return _dt.date(d.year - 1, 12, 31).toordinal()
+        if shift == "tty":
+            return serial - 1 if (d.month, d.day) != (1, 1) else None
+        raise ValueError(shift)
     seg0 = serial % f
     if shift == "yoy":
         return serial - f
@@ -133,17 +149,23 @@ def _structures(tier):
         yield ("I", 0, 5, 1, ())
         yield ("Y", 0, 4, 1, (1,))
         yield ("M", 10, 15, 1, ())
+        yield ("D", 0, 8, 1, ())            # 28 Dec 2023 .. 4 Jan 2024 (into a leap year)
+        yield ("D", 366, 7, 1, (3,))        # 28 Dec 2024 .. 3 Jan 2025 (out of a leap year)
     else:
         yield from (("Q", off, 6, nvar, miss) for off in range(4) for nvar in (1, 2) for miss in ((), (2,), (3,)))
         yield from (("H", off, 6, 1, miss) for off in range(2) for miss in ((), (2,)))
         yield from (("Y", 0, 5, nvar, miss) for nvar in (1, 2) for miss in ((), (1,)))
         yield from (("I", off, 6, 1, miss) for off in (0, -12) for miss in ((), (2,)))
         yield from (("M", off, 15, 1, miss) for off in (0, 5, 11) for miss in ((), (7,)))
+        yield from (("D", off, 8, nvar, miss) for off in (0, 2, 366, 61, 366 + 365, 27759) for nvar in (1, 2) for miss in ((), (3,)))
+        # (61: 27 Feb 2024 across the leap day; 27759: 28 Dec 2099 into the non-leap century year 2100)
 
 
 def _shifts(fr):
     if fr == "I":
         return (-1, -2, -4)
+    if fr == "D":
+        return (-1, -2, "soy", "eopy", "tty")
     return (-1, -2, -4, "yoy", "soy", "eopy", "tty")
 
 
@@ -162,7 +184,7 @@ def main(run):
         "series.main.Series.{shift,_shift_by_number,_shift_yoy,_shift_soy,_shift_eopy,_shift_tty,_binop,get_data,set_data,"
         "trim,_get_date_positions,copy}", "dates.{Span,Period.shift,create_soy,create_eopy,create_tty}",
     ]
-    run.bounds["structures"] = ("frequency in {Y,H,Q,M,I}; start offset over a full year (Q,H) or selected (M); length 4..15; "
+    run.bounds["structures"] = ("frequency in {Y,H,Q,M,I,D}; daily windows of 7-8 days across 2023/24, 2024/25, 29 Feb 2024 and 2099/2100; start offset over a full year (Q,H) or selected (M); length 4..15; "
                                 "variants in {1,2}; no or one interior missing period; shift in {-1,-2,-4,yoy,soy,eopy,tty}; "
                                 f"tier={run.tier} enumerates the list in checks/C13._structures exhaustively")
     run.bounds["values"] = "every data cell an independent positive real (positivity only where the formula takes logs or real powers)"
@@ -172,7 +194,8 @@ def main(run):
         "tty at start-of-year periods: asserted 'value unchanged' only for diff and roc (for diff_log/pct the documented "
         "formula is ambiguous and those cells are not asserted)",
     ]
-    run.outside += ["daily frequency (annualisation factor 365 gives 365-fold products)", "lengths beyond 15 periods",
+    run.outside += ["daily frequency for the annualised variants (factor 365 gives 365-fold products) and for 'yoy' "
+                    "(the documented formula does not say whether a year is 365 days or a calendar year)", "lengths beyond 15 periods",
                     "cumulation with interior missing values: only 'no wrong value' is asserted, not full reproduction"]
     run.stubs.append('Series.set_data(dates, None) on object data is executed as set_data(dates, NaN) (numpy float-array semantics of None)')
     with npproxy.installed(proxy, *mods, extra=[none_is_nan_patch(ir)]):
@@ -208,6 +231,8 @@ def main(run):
             # --- annualised
             a = f or 1
             for func, form in _ACHANGE.items():
+                if fr == "D":
+                    break       # 365-fold products: outside the claim
                 key = f"{func}:{fr}{off}:n{n}v{nvar}m{list(miss)}"
                 case = dict(base, kind="achange", op=func, shift=-1)
                 try:
@@ -227,6 +252,8 @@ def main(run):
             convs = [("roc_from_pct", "pct", "roc"), ("pct_from_roc", "roc", "pct"), ("pct_from_apct", "apct", "pct"),
                      ("roc_from_apct", "apct", "roc"), ("roc_from_aroc", "aroc", "roc")]
             for conv, src, dst in convs:
+                if fr == "D" and "apct" in src + dst or fr == "D" and "aroc" in src + dst:
+                    continue
                 key = f"{conv}:{fr}{off}:n{n}v{nvar}m{list(miss)}"
                 case = dict(base, kind="conversion", op=conv, src=src, dst=dst, shift=-1)
                 try:
@@ -243,7 +270,7 @@ def main(run):
                 for shift in (-1, -2, -4):
                     if -shift >= n:
                         continue
-                    for direction in ("forward", "backward"):
+                    for direction in ("forward", "backward", "backward_open"):
                         key = f"{cum}:{direction}:{fr}{off}:n{n}v{nvar}m{list(miss)}:shift={shift}"
                         case = dict(base, kind="cum", op=cum, func=func, shift=shift, direction=direction)
                         try:
@@ -274,6 +301,9 @@ def _cum_roundtrip(ir, x, cum, func, shift, direction):
     first, last = x.start, x.end
     if direction == "forward":
         span = ir.Span(first - shift, last, 1)
+    elif direction == "backward_open":
+        # the whole series backward: both ends of the span left to be resolved by the function
+        span = ir.Span(None, None, -1)
     else:
         # backward: the span lists the periods being computed (t+shift), going backward
         span = ir.Span(last + shift, first, -1)
